@@ -156,7 +156,7 @@ def report(ctx, results):
 
 
 def correspondence(ctx):
-    n = int(os.environ.get('VERIF_C08_CASES', '0')) or (800 if ctx.quick else 16000)
+    n = int(os.environ.get('VERIF_C08_CASES', '0')) or (800 if ctx.quick else 12000)
     big = 6000 if ctx.quick else 20000
     base = ctx.seed * 1000003 % (2 ** 31)
     items = [{'name': c['name'], 'steps': c['steps']} for c in corpus_cases()]
